@@ -456,7 +456,10 @@ class SymStr:
         raise Unmodelled("SymStr leaked to __index__")
 
     __repr__ = object.__repr__
-    __hash__ = None
+
+    def __hash__(self):
+        return 0  # all symbolic strings collide; equality (a symbolic Boolean, i.e. a fork) decides hash-table membership
+
 
     # ---- str methods (models live in sx.models; bound lazily to avoid an import cycle)
     def upper(self):
